@@ -20,18 +20,23 @@ pub fn main(_args: &[String]) -> i32 {
         let r: String = if kind == "image_stream" || kind == "image_value" {
             crate::registry::c19::image_one(kind == "image_stream", text)
         } else {
-            let (res, probe) = crate::registry::c19::view_one(kind, text);
-            let base = match res {
+            let obs = crate::registry::c19::view_one(kind, text);
+            let base = match obs.res {
                 crate::registry::c19::VRes::Ok(true) => "ok1",
                 crate::registry::c19::VRes::Ok(false) => "ok0",
                 crate::registry::c19::VRes::Err => "err",
                 _ => "panic",
             };
-            match probe {
-                Some(true) => format!("{}+raster_ok", base),
-                Some(false) => format!("{}+raster_panic", base),
-                None => base.to_string(),
+            let mut line = base.to_string();
+            if let Some(sk) = obs.skeleton {
+                line.push_str(&format!(" sk={}", sk));
             }
+            match obs.raster {
+                Some(true) => line.push_str(" raster=ok"),
+                Some(false) => line.push_str(" raster=panic"),
+                None => {}
+            }
+            line
         };
         let mut out = stdout.lock();
         let _ = writeln!(out, "{}", r);
